@@ -7,6 +7,7 @@ rows = ["| id | property | status | commit | what failed |", "|---|---|---|---|-
 for f in d['findings']:
     rows.append("| %s | %s | %s | %s | %s |" % (f['id'], f['property'], f['status'], f.get('commit', ''), f['what'].replace('|', '\\|')))
 s = open('/verif/DESIGN.md').read()
-s = re.sub(r'<!-- FINDINGS-BEGIN -->.*?<!-- FINDINGS-END -->', '<!-- FINDINGS-BEGIN -->\n' + '\n'.join(rows) + '\n<!-- FINDINGS-END -->', s, flags=re.S)
+block = '<!-- FINDINGS-BEGIN -->\n' + '\n'.join(rows) + '\n<!-- FINDINGS-END -->'
+s = re.sub(r'<!-- FINDINGS-BEGIN -->.*?<!-- FINDINGS-END -->', lambda m: block, s, flags=re.S)
 open('/verif/DESIGN.md', 'w').write(s)
 print(len(rows) - 2, "findings")
